@@ -173,7 +173,8 @@ def rebondWitness : List Op :=
     .bond 1 101 201 (10 * u) true, .bond 2 102 202 (10 * u) true, .bond 3 103 203 (10 * u) true, .bond 4 104 204 (10 * u) true,
     .claim 101 101 1 0 .pending 1001,
     .gov [2, 3, 4] true,
-    .unbond 1 true 0 true,
+    .endBlock [] true,
+    .unbond 1 (decide (unbondUbdRule = .requireExists)) 0 true,
     .gov [1, 2, 3, 4] true,
     .bond 1 101 201 (25 * u) true,
     .claim 101 101 1 0 .pending 1001 ]
